@@ -247,7 +247,13 @@ func (g *gen) faultStmt() ([]zn.Stmt, zn.Stmt, string) {
 	div := func(den zn.Expr) zn.Expr {
 		return &zn.Bin{Op: ">", L: &zn.Bin{Op: "/", L: num(10), R: &zn.Grp{E: den}}, R: num(0)}
 	}
-	switch g.pick(14, "fault") {
+	switch g.pick(15, "fault") {
+	case 14:
+		// a method the object's class does not define: no call takes place
+		g.labels["fault-unknown-method-of-object"] = true
+		cn, on := fmt.Sprintf("空类%d", g.n), fmt.Sprintf("空物%d", g.n)
+		return []zn.Stmt{&zn.ClassDef{Name: cn, Props: []zn.Prop{{Name: "值", Init: num(0)}}}, &zn.Let{Names: []string{on}, E: &zn.New{Class: cn}}},
+			&zn.ExprStmt{E: &zn.MCall{Root: v(on), Chain: []zn.Call{{Name: "无此法", Args: []zn.Expr{num(1)}}}}}, "unknown method of an object"
 	case 11:
 		// a failing library function: its own frame is built-in code, not a source line
 		g.labels["fault-in-library-function"] = true
